@@ -314,6 +314,9 @@ func genDepositMatrix(g *Gen, n int) {
 				tok = g.pick([]string{"uusd", "other", "", "uusdcx"})
 			}
 			mr := g.r.Bytes(32)
+			if vi%3 == 1 {
+				mr = g.sparse32()
+			}
 			if broken["recipient"] {
 				mr = [][]byte{make([]byte, 32), {}, make([]byte, 31)}[vi%3]
 				if vi%3 == 2 {
@@ -334,6 +337,9 @@ func genDepositMatrix(g *Gen, n int) {
 				g.tx("DepositForBurn", from, fmt.Sprintf("amount=%s dest=%d mint_recipient=%x burn_token=%x", amt, dest, mr, tok), plan)
 			} else {
 				caller := pad32(g.r.Bytes(20))
+				if g.r.Chance(1, 3) {
+					caller = g.sparse32()
+				}
 				if broken["caller"] {
 					caller = [][]byte{make([]byte, 32), {}, g.r.Bytes(31), g.r.Bytes(33)}[g.r.Intn(4)]
 				}
